@@ -53,8 +53,9 @@ ASSUMPTIONS = [
     "originals); every other column must keep its dtype",
     "row labels are not part of the format: the index of the re-imported frame is not compared",
     "model ranges are compared as sequences of floats (tuple vs list is not a difference of a range)",
-    "data and metadata floats are finite (NaN / inf are not JSON); the NaN rmse / ranges of an unfitted model instance "
-    "are compared NaN == NaN",
+    "pressure, loading and metadata floats are finite (NaN / inf are not JSON); supplementary float columns may have "
+    "missing readings (NaN, which the library's writer emits and its reader accepts) or no reading at all; the NaN rmse "
+    "/ ranges of an unfitted model instance and NaN cells are compared NaN == NaN",
     "material names are never names of registry materials, so importing cannot alias a shared registry object",
     "a refused fit (CalculationError) while building a fitted model isotherm is inconclusive, not a violation",
 ]
@@ -559,9 +560,13 @@ def point_strategy(draw):
     if n_extra:
         names = draw(st.lists(st.sampled_from(_EXTRA_NAMES), min_size=n_extra, max_size=n_extra, unique=True))
         for name in names:
-            kind = draw(st.sampled_from(["float", "text", "int", "float"]))
+            kind = draw(st.sampled_from(["float", "text", "int", "float", "float_gaps", "float_unmeasured"]))
+            # float_gaps: a channel with missing readings (None in the descriptor = NaN in the table); float_unmeasured: a
+            # channel without any reading
             cell = {"float": st.floats(-1e3, 1e3, allow_nan=False), "int": st.integers(-1000, 1000),
-                    "text": st.sampled_from(_TEXT_CELLS)}[kind]
+                    "text": st.sampled_from(_TEXT_CELLS),
+                    "float_gaps": st.one_of(st.none(), st.floats(-1e3, 1e3, allow_nan=False)),
+                    "float_unmeasured": st.none()}[kind]
             extras[name] = draw(st.lists(cell, min_size=n, max_size=n))
     if index == "shuffle":
         index = {"perm": draw(st.permutations(list(range(n))))}
@@ -586,7 +591,7 @@ def build_point(d):
     pk, lk = d["keys"]
     data = {pk: list(d["pressure"]), lk: list(d["loading"])}
     for name, vals in d["extras"].items():
-        data[name] = list(vals)
+        data[name] = [float("nan") if v is None else v for v in vals]
     n = len(d["pressure"])
     if isinstance(branch, list) and d["branch_form"] in ("col_int", "col_bool"):
         data["branch"] = [bool(v) for v in branch] if d["branch_form"] == "col_bool" else [int(v) for v in branch]
